@@ -10,8 +10,9 @@ SHARD = 200
 RULE = ('program (sync chain, async steps with 1-3 awaits, waits, outputs, status messages) x every sequence of <= 2 (quick) / 3 (thorough) requests from '
         '{pause with/without message, play} placed at every callback boundary, completed by the deterministic driver (play if paused, drain, resume a '
         'quiescent wait with the next value); compared with the same program run without requests; non-trivial = at least one pause took effect '
-        '(the process reported paused) or a pending pause was cancelled by play; distinct = distinct (program, schedule)')
-ASSUMPTIONS = ['programs do not call control methods on themselves; the environment does', 'life-cycle hooks and listeners do not raise',
+        '(the process reported paused) or a pending pause was cancelled by play; plus (sampled) a listener that reacts to a notification with play() of its own, '
+        'combined with a request from outside; distinct = distinct (program, schedule)')
+ASSUMPTIONS = ['programs do not call control methods on themselves; the environment (and, in one family, a listener calling play()) does', 'life-cycle hooks and listeners do not raise',
                'waits are resumed by the deterministic driver rule once the process is quiescent in WAITING']
 
 
@@ -41,10 +42,10 @@ def reference(case):
         key = json.dumps([case['prog'], case['events']], sort_keys=True)
         if key not in _REF:
             ev = [e for e in case['events'] if not (e[0] == 'ctl' and e[1][0] in ('pause', 'play'))]
-            _REF[key] = life.strip_obs(life.run_case(dict(case, events=ev)))
+            _REF[key] = life.strip_obs(life.run_case(dict(case, events=ev, listeners=[])))
         return _REF[key]
     if key not in _REF:
-        ref_case = dict(case, events=[['auto', 40]])
+        ref_case = dict(case, events=[['auto', 40]], listeners=[])
         _REF[key] = life.strip_obs(life.run_case(ref_case))
     return _REF[key]
 
@@ -156,6 +157,23 @@ def generate(tier, rng, around=None):
         kt = {'quick': 160, 'thorough': 6000, 'widen': 1500}[tier]
         for t in (trip if len(trip) <= kt else rng.sample(trip, kt)):
             cases.append(dict(base, events=life.place_on(skeleton, [singles[x] for x in t]) + [['auto', 40]]))
+    # a listener that reacts to a notification with play() of its own (re-entrantly: from inside the transition or the pause that
+    # notifies it), combined with one or two requests from outside — the quantifier of the all-run theorems (listener scripts);
+    # play() from anywhere only withdraws or ends a pause, so the run must still equal the uninterrupted one
+    for name, (prog, resumes) in programs().items():
+        base = {'prog': prog, 'auto_resumes': resumes, '_prog': name + '+listener'}
+        n = life.count_ticks(prog, {'auto_resumes': resumes}, driven=True) + 1
+        skeleton = [x for _ in range(n) for x in (['resume*'], ['tick'])]
+        positions = [p for p in range(len(skeleton) + 1) if resumes or p % 2 == 0]
+        lref = run_impl(dict(base, events=life.place_on(skeleton, [(positions[min(2, len(positions) - 1)], EVENTS[0])]) + [['auto', 40]]))
+        lcounts = {}
+        for e in lref['trace']:
+            if e[0] == 'listener':
+                lcounts[e[1]] = lcounts.get(e[1], 0) + 1
+        combos = [(l, o, b, e) for l, c in sorted(lcounts.items()) for o in range(c + 1) for b in positions for e in EVENTS[:2]]
+        kl = {'quick': 60, 'thorough': 2500, 'widen': 300}[tier]
+        for (l, o, b, e) in (combos if len(combos) <= kl else rng.sample(combos, kl)):
+            cases.append(dict(base, listeners=[[l, o, ['play']]], events=life.place_on(skeleton, [(b, e)]) + [['auto', 40]]))
     # several wake-ups for one wait (only the first counts) interleaved with a pause in the same gap between two callbacks
     wprog = programs()['wait'][0]
     R1, R2, PA, PL = ['ctl', ['resume', 1]], ['ctl', ['resume', 2]], ['ctl', ['pause', None]], ['ctl', ['play']]
@@ -163,7 +181,7 @@ def generate(tier, rng, around=None):
         for seq in ([PA, R1, R2], [R1, PA, R2], [R1, R2, PA], [PA, R1, PL, R2], [PA, PL, R1, R2], [PA, R1, R2, PL], [PA, R1, ['tick'], R2]):
             cases.append({'prog': wprog, 'auto_resumes': [], 'explicit': True, '_prog': 'wait+two-resumes',
                           'events': [['tick']] * nt + seq + [['drain', 30], PL, ['drain', 30]]})
-    return {'cases': cases, 'exhaustive': True,
+    return {'cases': cases, 'exhaustive': False,
             'scope': '6 programs x every single pause/play request at every callback boundary and between a wake-up and the next callback; '
                      'pairs and triples (two requests in one loop iteration) sampled in the quick tier'}
 
